@@ -36,6 +36,7 @@ def run(facts, rep, tier):
     pair(F, rep)
     imported(F, rep)
     nominal(F, rep)
+    hooktable_first(F, rep)
 
 
 def lowering_field_reads(f, locs):
@@ -365,3 +366,54 @@ def nominal(F, rep):
     for f in keep:
         f.rule = "NOMINAL"
         rep.add(f)
+
+
+def hooktable_first(F, rep):
+    """HOOKFIRST - `newtype_checked_ctor` is read at every `T(x)` site while bodies are lowered, so it is complete
+    before the first body is lowered: in lower_program no insertion into it is reachable from a call that can reach
+    lower_expr (a construction site placed above the newtype's declaration would otherwise be emitted raw)."""
+    from engines import callee_generic, callee_name, op_place
+    f = F.one_fn("AstLowering::lower_program")
+    if not rep.anchor("HOOKFIRST", "AstLowering::lower_program", f):
+        return
+    rep.functions.add(f.path)
+    reader = F.one_fn("AstLowering>::lower_expr")
+    if not rep.anchor("HOOKFIRST", "lower_expr", reader):
+        return
+    ins = []
+    for bi, t in f.calls():
+        if not (callee_generic(t) or "").endswith("::insert") or not t["args"]:
+            continue
+        pl = op_place(t["args"][0])
+        root = pl
+        for _ in range(4):
+            if root is None:
+                break
+            if any(e[0] == "f" and e[3] == "newtype_checked_ctor" for e in root["p"]):
+                ins.append(bi)
+                break
+            d = f.single_def(root["l"])
+            if d and d[2] == "assign" and d[3]["r"] in ("ref", "cfd"):
+                root = d[3]["p"]
+            else:
+                break
+    if not rep.anchor("HOOKFIRST", "insert into newtype_checked_ctor in lower_program", ins):
+        return
+    lowering_calls = []
+    for bi, t in f.calls():
+        cn = callee_name(t)
+        if cn and cn in F.fns and cn != f.path and F.fns[cn].crate == "incan":
+            clo = F.closure([cn], pred=lambda p: F.fns[p].crate == "incan")
+            if reader.path in clo:
+                lowering_calls.append(bi)
+    rep.floor("HOOKFIRST", "calls in lower_program that can reach lower_expr", len(lowering_calls), 3)
+    late = [i for i in ins if any(i in f.reachable(c) - {c} for c in lowering_calls)]
+    ok = not late
+    rep.oblige("HOOKFIRST", "lower_program", ok, sample={"rule": "HOOKFIRST", "inserts": len(ins),
+                                                         "lowering_calls": len(lowering_calls)})
+    if not ok:
+        rep.add(Finding("HOOKFIRST", "HOOKFIRST|lower_program",
+                        "the validation-hook table is still being filled while bodies are lowered: `T(x)` written "
+                        "above the declaration of the validated newtype T is lowered before T's hook is recorded and "
+                        "is emitted as the raw tuple constructor", file=f.file, line=f.term(late[0]).get("ln"),
+                        fn=f.path))
